@@ -4,7 +4,7 @@
    the area of a two-disc intersection; score <= 1.  Known finding D7: three discs with a common point, or a
    disc inside another, make the molecule area wrong (or NaN). *)
 From Coq Require Import ZArith List Bool Reals. Import ListNotations.
-From PV Require Import Num NumR model.Geom proofs.LatticeFacts proofs.OverlapFacts proofs.PackingFacts proofs.LJFacts proofs.AreaFacts.
+From PV Require Import Num NumR model.Geom proofs.LatticeFacts proofs.OverlapFacts proofs.PackingFacts proofs.LJFacts proofs.AreaFacts proofs.RedescribeFacts.
 
 Theorem C02_score_is_fraction :
   forall (st : pstateR) (s : R), packed_score NumR st = Some s -> s = (p_area NumR st * INR
@@ -62,4 +62,12 @@ Theorem C02_circle_overlap_disjoint :
     NumR a) (dx_ NumR b) (dy_ NumR b)))%R -> circle_overlap NumR facos a b = 0%R.
 Proof. exact circle_overlap_disjoint. Qed.
 Print Assumptions C02_circle_overlap_disjoint.
+
+Theorem C02_packed_score_site_shift :
+  forall (st : pstateR) (n m : Z), Forall int_sym (p_syms NumR st) -> packed_score NumR {|
+    p_syms := p_syms NumR st; p_site := shift_site (p_site NumR st) n m; p_cell := p_cell NumR
+    st; p_shape := p_shape NumR st; p_radius := p_radius NumR st; p_area := p_area NumR st |} =
+    packed_score NumR st.
+Proof. exact packed_score_site_shift. Qed.
+Print Assumptions C02_packed_score_site_shift.
 
